@@ -46,19 +46,21 @@ StratOK(c, o) ==
   LET r == Res(G, c.t[3])
       M == Meta(G, P2(c.ms), c.buf, T3(c.t))
       trunc == CASE o.s = "single" -> FALSE
-                 [] o.s = "bulk" -> FALSE
+                 [] o.s \in {"bulk", "bulkholes"} -> FALSE
                  [] o.s = "minimal" -> Buffered(G, BoundRect(o.req).bbox, c.t[3], c.buf)[2] # <<c.buf, c.buf, c.buf, c.buf>>
                  [] OTHER -> Truncated(M, c.buf)
       tol == IF trunc THEN r ELSE 0
       expected == CASE o.s = "single" -> {T3(c.t)}
                     [] o.s = "minimal" -> InGrid(BoundRect(o.req).tiles)
+                    \* bulk creation asks for every tile on its own; tiles the source has no picture for are not stored
+                    [] o.s = "bulkholes" -> MetaTileSet(c) \ SetOfTiles(o.holes)
                     [] OTHER -> MetaTileSet(c)
   IN /\ Abs(o.ex) <= tol /\ Abs(o.ey) <= tol /\ (tol = 0 => o.spread = 0)
      /\ o.bg_inside = 0
      /\ o.foreign = 0
      /\ SetOfTiles(o.stored) = expected
      /\ o.nstore = 1
-     /\ o.nreq = (IF o.s = "bulk" THEN Cardinality(expected) ELSE 1)
+     /\ o.nreq = (IF o.s \in {"bulk", "bulkholes"} THEN Cardinality(MetaTileSet(c)) ELSE 1)
 
 CaseOK(c) ==
   /\ MetaOK(G, P2(c.ms), c.buf, T3(c.t))
